@@ -37,4 +37,6 @@ def cmdKCell (a : Args) : String := Id.run do
   | some m => return s!"fail:{m.replace " " "_"}"
   | none => return showFloat (k.cell env rd (fun _ => []))
 
+def handlers : List (String × (Args → String)) := [("kernel", cmdKernel), ("kcell", cmdKCell)]
+
 end XrsVerif.Driver
